@@ -356,7 +356,10 @@ func (x *Exec) native(name string, fn *ssa.Function, args []Value) (Value, bool)
 		loc := x.call(model, []Value{strOf(rePattern(re)), x.convert(args[1], types.Typ[types.String], types.NewSlice(types.Typ[types.Byte]))}, nil).(SliceV)
 		return Bool(loc.a != nil), true
 	case "(*regexp.Regexp).String":
-		re := args[0].(Ptr).o.(*Cell).v.(Native).v.(*regexp.Regexp)
+		re, ok := args[0].(Ptr).o.(*Cell).v.(Native).v.(*regexp.Regexp)
+		if !ok {
+			panic(abortPath{"String() of a symbolic-pattern regexp", false})
+		}
 		return strOf(re.String()), true
 	case "sort.Strings":
 		s := args[0].(SliceV)
